@@ -92,6 +92,9 @@ def dispatch(func, args, kwargs):
         raise Unsupported("op " + name)
     STATS["ops"][name] = STATS["ops"].get(name, 0) + 1
     res = h(func, args, kwargs)
+    ctx_ = Ctx.cur
+    if ctx_ is not None and ctx_.notes.get("grad_alias") and (name in ("detach", "detach_", "item") or not torch.is_grad_enabled()):
+        _alias_cut(ctx_, args, kwargs, res)
     # ghost: does the result carry an autograd graph (depends, through differentiable ops, on a tensor that requires grad)?
     if name not in NO_GRAPH and torch.is_grad_enabled():
         g = False
@@ -108,6 +111,30 @@ def dispatch(func, args, kwargs):
                     r_._g = dict(r_._g or {}); r_._g["graph"] = True
                     r_._g["gradset"] = (r_._g.get("gradset") or frozenset()) | (gs or frozenset())
     return res
+
+
+def _alias_cut(ctx, args, kwargs, res):
+    """gradient ghost (C16 harnesses only): the result of an operation that autograd does not record (detach, anything under no_grad) on
+    operands that carry a graph is replaced, element by element, by alias symbols whose definitions are kept aside.  A result of the
+    function under contract that still mentions such an alias depends on a leaf along a path autograd does not differentiate."""
+    carries = any(isinstance(a_, Sym) and a_._g and (a_._g.get("requires_grad") or a_._g.get("graph") or a_._g.get("aliased"))
+                  for a_ in pytree.tree_leaves((args, kwargs)))
+    if not carries:
+        return
+    defs = ctx.notes.setdefault("gcut_defs", {})
+    for r_ in pytree.tree_leaves(res):
+        if isinstance(r_, Sym) and r_.dtype.is_floating_point:
+            p = P(r_)
+            new = np.empty(p.shape, dtype=object)
+            for idx in np.ndindex(*p.shape):
+                t = p[idx]
+                if is_num(t) or (z3.is_const(t) and t.get_id() in defs):
+                    new[idx] = t; continue
+                a = fresh("gcut", R)
+                defs[a.get_id()] = (a, t)
+                new[idx] = a
+            r_._p = new
+            r_._g = dict(r_._g or {}); r_._g["aliased"] = True
 
 
 NO_GRAPH = {"detach", "detach_", "requires_grad_", "_make_subclass", "__bool__", "item", "size", "dim", "ge", "gt", "le", "lt", "eq", "ne",
